@@ -1152,9 +1152,11 @@ pub fn exec(ctx: &mut Ctx, op: &Value) -> (Value, Value) {
                         let c = if name == "card_current" { m.get_current_memory(e, sl) } else { m.get_memory_at_time(e, sl, op["t"].as_i64().unwrap_or(0)) };
                         c.map(card_json)
                     }));
+                    // C27 relates the answer at time t to get_current_memory: recorded with every answer
+                    let cur = catch_unwind(AssertUnwindSafe(|| m.get_current_memory(e, sl).map(|c| c.id as i64).unwrap_or(-1))).unwrap_or(-2);
                     match r {
-                        Ok(Some(c)) => res_ok(json!({"found": true, "card": c})),
-                        Ok(None) => res_ok(json!({"found": false})),
+                        Ok(Some(c)) => res_ok(json!({"found": true, "card": c, "current": cur})),
+                        Ok(None) => res_ok(json!({"found": false, "current": cur})),
                         Err(p) => res_panic(p),
                     }
                 }
